@@ -1,5 +1,5 @@
 """C06 - see DESIGN.md section 6/C06.  Parts: KernelImpl.tla (TLC) + kernel/subject traces vs Contract.tla (C06 clauses)."""
-import vlib, parts_kernel, parts_pipeline as pp, common
+import vlib, parts_kernel, parts_pipeline as pp, common, tracecheck
 
 PID = 'C06'
 
@@ -14,6 +14,8 @@ def main(argv):
     # schedule replay: one preemption at every hook point (lock boundary / check-then-act window) of a victim producer, operator-level scenarios
     parts_kernel.trace_part(rep, PID, 120 if thorough else 45, [s * 100 + 70 + i for i in range(4 if thorough else 1)], driver='drive-park', label='drive-park')
     pp.run(rep, PID, common.pipeline_cfgs(rep, 'cuts'))
+    # Collect: exactly the values delivered, with the error, never before the terminal callback has run, never hanging
+    tracecheck.run(rep, PID, 'drive-collect', 'CollectTrace', 'CollectTrace_x.cfg', 2000 if thorough else 600, [s * 100 + 90 + i for i in range(4 if thorough else 1)], 'collect')
     rep.cov['rule'] = common.PIPE_RULE + '; ' + ('kernel traces: seeded scenarios (1-4 producers with legal and illegal scripts, 0-2 unsubscribers, adders, waiters, '
                        'inside-callback unsubscription, panicking teardowns; observable safe/eventually-safe/unsafe and the 5 subjects) run on the real '
                        'library with yield hooks; non-trivial = distinct traces in which two harness threads had calls in flight simultaneously')
@@ -23,6 +25,8 @@ def main(argv):
 
 def replay(path):
     vlib.build_harness()
+    if path.endswith('.ndjson') and 'drive-collect' in path:
+        return tracecheck.replay(PID, 'CollectTrace', 'CollectTrace_x.cfg', path)
     if path.endswith('.ndjson'):
         return parts_kernel.replay_trace(PID, path)
     return pp.replay_case(PID, path)
